@@ -24,12 +24,12 @@ VARIABLES s, used, last
 vars == <<s, used, last>>
 
 BudgetKeys == {"user.release2", "user.release3", "user.rollback", "user.scale", "user.approve", "user.pause", "user.resume",
-               "user.disable", "user.enable", "user.delete", "user.editplan", "user.jump", "env.unready", "total"}
+               "user.disable", "user.enable", "user.delete", "user.editplan", "user.jump", "user.editidle", "user.deleteidle", "env.unready", "total"}
 
-ClassOf(a) == IF a \in {"user.jump:1", "user.jump:2", "user.jump:3", "user.jump:4"} THEN "user.jump" ELSE a
+ClassOf(a) == IF a \in JumpActs THEN "user.jump" ELSE a
 IsDisturbance(c) == c \in BudgetKeys /\ c \notin {"user.release2", "user.approve", "env.unready", "total"}
 
-JumpTarget(a) == CASE a = "user.jump:1" -> 1 [] a = "user.jump:2" -> 2 [] a = "user.jump:3" -> 3 [] OTHER -> 4
+JumpTarget(a) == JumpTargetOf(a)
 
 \* harness/sim/world.go userEnabled
 UserEnabled(st, a) ==
@@ -46,7 +46,9 @@ UserEnabled(st, a) ==
        [] a = "user.enable"   -> st.user.disabled /\ ~st.ro.deleting
        [] a = "user.delete"   -> ~st.ro.deleting /\ st.user.rev >= 2
        [] a = "user.editplan" -> inProg /\ Len(Plan2) > 0
-       [] a \in {"user.jump:1", "user.jump:2", "user.jump:3", "user.jump:4"} -> inProg /\ st.ro.hasSub /\ JumpTarget(a) # st.ro.next
+       [] a = "user.editidle" -> st.ro.phase = "Healthy" /\ ~st.ro.deleting /\ Len(Plan2) > 0
+       [] a = "user.deleteidle" -> st.ro.phase = "Healthy" /\ ~st.ro.deleting
+       [] a \in JumpActs -> inProg /\ st.ro.hasSub /\ JumpTarget(a) # st.ro.next
        [] OTHER -> FALSE
 
 TickUseful(st) ==
@@ -76,7 +78,7 @@ GhostAfter(p, a, q0) ==
       sorted == SelectSeq(<<1, 2, 3, 4, 5>>, LAMBDA i : i \in rs)
   IN  [q0 EXCEPT !.ghost.readySteps = IF q0.ro.exists THEN sorted ELSE p.ghost.readySteps,
                  !.ghost.brEver = p.ghost.brEver \/ q0.br.exists,
-                 !.ghost.jumpBack = p.ghost.jumpBack \/ (a \in {"user.jump:1", "user.jump:2", "user.jump:3", "user.jump:4"} /\ p.ro.hasSub /\ JumpTarget(a) < p.ro.step),
+                 !.ghost.jumpBack = p.ghost.jumpBack \/ (a \in JumpActs /\ p.ro.hasSub /\ JumpTarget(a) < p.ro.step),
                  !.ghost.origOk = OrigOkOf(q0),
                  \* only pods of the BatchRelease's update revision carry its labels: replacing them removes labels
                  !.wl.labelled = IF q0.br.exists /\ q0.br.updRev \in 1..3 /\ q0.wl.exists
@@ -88,7 +90,7 @@ EditPlan(st) == [st EXCEPT !.plan = Plan2, !.ro.hashOk = (Plan2 = st.plan /\ st.
                            !.br.planOk = (st.br.exists /\ Len(Plan2) = Len(st.br.plan) /\ \A i \in 1..Len(Plan2) : SameReplicas(Plan2[i], st.br.plan[i]))]
 
 Succ(st, a) ==
-  IF a = "user.editplan" THEN {EditPlan(st)}
+  IF a \in {"user.editplan", "user.editidle"} THEN {EditPlan(st)}
   ELSE IF a = "user.scale" THEN {[st EXCEPT !.wl.R = ScaleTo, !.wl.genOk = FALSE]}
   ELSE {x \in StepSet(st, a) : WellFormedPods(x)}
 
